@@ -146,11 +146,11 @@ class CallerFaults(simnet.Behavior):
                 raise exc
 
 
-def run_case(runtime, kind, shape, inject, max_connections=1, yield_in_ops=True):
+def run_case(runtime, kind, shape, inject, max_connections=1, yield_in_ops=True, retries=0):
     """shape: dict(reuse: bool, queued: bool); inject: None | ('fault', k, excname) | ('cancel', k, 'scope'|'native')
     -> result dict with everything the oracles need"""
     import anyio
-    w = build_world(kind, True, max_connections=max_connections, yield_in_ops=yield_in_ops)
+    w = build_world(kind, True, max_connections=max_connections, yield_in_ops=yield_in_ops, retries=retries)
     pool, net = w["pool"], w["net"]
     res = {"labels": [], "inject": inject, "kind": kind, "shape": shape, "runtime": runtime}
 
@@ -241,6 +241,16 @@ def run_case(runtime, kind, shape, inject, max_connections=1, yield_in_ops=True)
     except BaseException as e:  # noqa
         res["harness_exc"] = repr(e)[:200]
     res["net_ops"] = [(r["op"], r.get("fault")) for r in net.log if r["op"] in simnet.NET_OPS and "ka" in r]
+    # C14: on how many connections did caller A's request head appear (HTTP/1.1: bytes written per socket; HTTP/2: heads decoded by h2)
+    heads = 0
+    for sock in net.sockets:
+        data = b"".join(b for _, b in sock.written)
+        if b"/A HTTP/1.1\r\n" in data:
+            heads += 1
+    for p in w["peers"]:
+        if any(r.get("path") == b"/A" for r in getattr(p, "reqs", {}).values()):
+            heads += 1
+    res["a_heads"] = heads
     return res
 
 
